@@ -346,10 +346,14 @@ func runC06(r *Run) {
 	r.Floor("C06.R4", 2)
 	r.Floor("C06.R7", 2)
 	r.Floor("C06.R8", 5)
-	r.Floor("C06.R9", 6)
+	r.Floor("C06.R9", 8)
 	r.Floor("C06.R10", 4)
 	r.Floor("C06.R11", 1)
 	r.Floor("C06.R12", 1)
+	r.Floor("C06.R14", 3)
+	r.Floor("C06.R15", 1)
+	r.RuleDoc("C06.R14", "optional container-state records (Waiting / LastTerminationState.Terminated) are dereferenced only where a recorded state is established")
+	r.RuleDoc("C06.R15", "MostRecentRestart returns the latest FinishedAt among containers with RestartCount != 0")
 	r.Floor("C06.R13", 2)
 	r.RuleDoc("C06.R12", "HighestRestartCount returns the running maximum of RestartCount over every container status (no container skipped)")
 	r.RuleDoc("C06.R13", "the canary pause / unpause readers are true exactly on their annotation value \"true\" (pause also on the Canary-Paused condition): nothing else counts as a manual unpause")
@@ -389,6 +393,9 @@ func runC06(r *Run) {
 	failedConditionWrites(r, "C06.R3")
 	c06StatusLists(r)
 	c06RunningMax(r)
+	c06OptionalStateDerefs(r)
+	c06LatestRestart(r)
+	c06ActiveResets(c)
 	c06CanaryReaders(r)
 	c06AllCurrentEvaluated(c, reach)
 	canaryCreationGuard(r, "C06.R7")
@@ -2334,5 +2341,325 @@ func c06CanaryReaders(r *Run) {
 			condType, _ = r.Prog.constStr(pkgAPI, rd.cond)
 		}
 		c08ReaderTableAs(r, "C06.R13", fn, key, trueVal, condType)
+	}
+}
+
+// ---------------------------------------------------------------------------------------------
+// R14: optional container-state records are dereferenced only where a recorded state is established
+
+// c06PodHelperFuncs lists the exported extraction helpers of the pod package that the evaluation
+// uses, with the repository functions they call.
+func c06PodHelperFuncs(r *Run) []*ssa.Function {
+	seen := map[*ssa.Function]bool{}
+	var out []*ssa.Function
+	for _, name := range []string{"HighestRestartCount", "MostRecentRestart", "CannotStart", "PendingCreate"} {
+		fn := r.Prog.Func(pkgPodUtils, name)
+		if fn == nil {
+			r.Fatal("anchor %s.%s not found", pkgPodUtils, name)
+			continue
+		}
+		for _, g := range r.Prog.calleesWithin(fn, 3) {
+			if !seen[g] {
+				seen[g] = true
+				out = append(out, g)
+			}
+		}
+	}
+	return out
+}
+
+func isZeroStructConst(v ssa.Value) bool {
+	c, ok := v.(*ssa.Const)
+	if !ok || c.Value != nil {
+		return false
+	}
+	_, isStruct := c.Type().Underlying().(*types.Struct)
+	return isStruct
+}
+
+// c06OptionalStateDerefs (R14): a container's Waiting / Running / Terminated record is optional (a
+// restarted container may report an empty last state). Every dereference of such a pointer in the
+// extraction helpers is dominated by a fact that establishes a record: the pointer itself != nil,
+// or the enclosing ContainerState != ContainerState{} (the repository's idiom). Otherwise the
+// canary evaluation panics on that pod instead of evaluating its triggers.
+func c06OptionalStateDerefs(r *Run) {
+	n := 0
+	for _, fn := range c06PodHelperFuncs(r) {
+		var ff *FuncFacts
+		k := newKeyer(fn)
+		reported := map[string]bool{}
+		for _, b := range fn.Blocks {
+			for _, in := range b.Instrs {
+				var ptr ssa.Value
+				switch x := in.(type) {
+				case *ssa.FieldAddr:
+					ptr = x.X
+				case *ssa.UnOp:
+					if x.Op == token.MUL {
+						ptr = x.X
+					}
+				}
+				ld, isLoad := ptr.(*ssa.UnOp)
+				if !isLoad || ld.Op != token.MUL {
+					continue
+				}
+				fa, isFA := ld.X.(*ssa.FieldAddr)
+				if !isFA || !isNamedType(fa.X.Type(), pkgCoreV1, "ContainerState") {
+					continue
+				}
+				if _, isPtr := ld.Type().Underlying().(*types.Pointer); !isPtr {
+					continue
+				}
+				// a dereference of <state>.<Record>
+				n++
+				if ff == nil {
+					ff = computeFacts(fn)
+				}
+				ptrKey := k.key(ld)
+				structKey := strings.TrimPrefix(k.key(fa.X), "&")
+				guarded := false
+				for _, f := range ff.AtExpanded(b) {
+					x, y, okE := eqOperands(f.V)
+					if !okE || f.Pol {
+						continue
+					}
+					for _, pair := range [][2]ssa.Value{{x, y}, {y, x}} {
+						if isNilConst(pair[1]) && k.key(pair[0]) == ptrKey {
+							guarded = true
+						}
+						if isZeroStructConst(pair[1]) && k.key(pair[0]) == structKey {
+							guarded = true
+						}
+					}
+				}
+				construct := "dereference of " + fieldName(fa.X) + "." + fieldName(fa)
+				if fieldName(fa.X) == "?" {
+					construct = "dereference of " + fieldName(fa)
+				}
+				if guarded && reported[construct] {
+					continue
+				}
+				reported[construct] = true
+				detail := ""
+				if !guarded {
+					detail = "neither the record != nil nor the enclosing ContainerState != ContainerState{} is established where it is dereferenced; must-facts: " + shortSet(ff.At(b))
+				}
+				r.Check("C06.R14", construct, r.Prog.Pos(instrPos(in)), shortFunc(fn),
+					"an optional container-state record is dereferenced only where a recorded state is established (a restarted container may report an empty last state)", guarded, detail)
+			}
+		}
+	}
+	if n == 0 {
+		r.Check("C06.R14", "optional container-state records", "-", "-", "the extraction helpers read the containers' waiting / last-termination records", false, "no dereference found")
+	}
+}
+
+// ---------------------------------------------------------------------------------------------
+// R15: MostRecentRestart is the latest termination time among the containers that restarted
+
+func c06LatestRestart(r *Run) {
+	fn := r.Prog.Func(pkgPodUtils, "MostRecentRestart")
+	if fn == nil {
+		r.Fatal("anchor %s.MostRecentRestart not found", pkgPodUtils)
+		return
+	}
+	pos := r.Prog.Pos(fn.Pos())
+	construct := "most recent restart is the latest termination among restarted containers"
+	var phi *ssa.Phi
+	for _, b := range fn.Blocks {
+		ret := returnOf(b)
+		if ret == nil || len(ret.Results) == 0 {
+			continue
+		}
+		ph, ok := stripConv(ret.Results[0]).(*ssa.Phi)
+		if !ok || (phi != nil && ph != phi) {
+			r.Undecided("C06.R15", construct, pos, shortFunc(fn), "the returned time is not one loop variable of a scan over the container statuses")
+			return
+		}
+		phi = ph
+	}
+	if phi == nil {
+		r.Undecided("C06.R15", construct, pos, shortFunc(fn), "no return found")
+		return
+	}
+	header := phi.Block()
+	k := newKeyer(fn)
+	paths, ok := loopBodyPaths(fn, k, header, 20000)
+	r.paths += len(paths)
+	if !ok || len(paths) == 0 {
+		r.Undecided("C06.R15", construct, pos, shortFunc(fn), "the returned time is not a loop variable (or path cap exceeded)")
+		return
+	}
+	isVar := func(v ssa.Value) bool { return stripConv(v) == ssa.Value(phi) }
+	isFinished := func(v ssa.Value) bool {
+		v = stripConv(v)
+		return allPathsEnd(v, "LastTerminationState", "Terminated", "FinishedAt", "Time") || allPathsEnd(v, "LastTerminationState", "Terminated", "FinishedAt")
+	}
+	isRC := func(v ssa.Value) bool { return allPathsEnd(stripConv(v), "RestartCount") }
+	isZero := func(v ssa.Value) bool { z, okz := constInt(v); return okz && z == 0 }
+	resolve := func(p *Path, v ssa.Value) ssa.Value {
+		for i := 0; i < 32; i++ {
+			ph, isPhi := v.(*ssa.Phi)
+			if !isPhi || ph.Block() == header {
+				return v
+			}
+			nv := p.ResolveOnce(v)
+			if nv == v {
+				return v
+			}
+			v = nv
+		}
+		return v
+	}
+	okAll, detail, nUpd := true, "", 0
+	bad := func(s string) {
+		if okAll {
+			okAll, detail = false, s
+		}
+	}
+	for _, p := range paths {
+		if len(p.Blocks) < 2 || p.Blocks[len(p.Blocks)-1] != header {
+			bad("an iteration leaves the scan early (return inside the loop)")
+			continue
+		}
+		restarted, later, noRecord := triUnknown, triUnknown, false
+		infeasible := false
+		for _, f := range p.Facts {
+			if x, y, okE := eqOperands(f.V); okE {
+				for _, pair := range [][2]ssa.Value{{x, y}, {y, x}} {
+					a, b := pair[0], pair[1]
+					switch {
+					case isRC(a) && isZero(b):
+						restarted = triOf(!f.Pol) // fact key is (rc == 0)
+					case isZeroStructConst(b) && allPathsEnd(stripConv(a), "LastTerminationState") && f.Pol:
+						noRecord = true
+					case isNilConst(b) && allPathsEnd(stripConv(a), "LastTerminationState", "Terminated") && f.Pol:
+						noRecord = true
+					}
+					// a pointer never equals a freshly allocated object: such a path does not exist
+					if al, isA := stripConv(b).(*ssa.Alloc); isA && al.Heap && f.Pol {
+						if _, isPtr := a.Type().Underlying().(*types.Pointer); isPtr {
+							infeasible = true
+						}
+					}
+				}
+				continue
+			}
+			if big, small, strict, okO := factOrder(f); okO {
+				if isRC(big) && isZero(small) && strict {
+					restarted = triTrue
+				}
+				if isZero(big) && isRC(small) {
+					restarted = triFalse
+				}
+				continue
+			}
+			if call, isC := f.V.(*ssa.Call); isC && len(call.Call.Args) == 2 {
+				switch calleeName(&call.Call) {
+				case "(time.Time).After":
+					if isFinished(call.Call.Args[0]) && isVar(call.Call.Args[1]) {
+						later = triOf(f.Pol)
+					}
+				case "(time.Time).Before":
+					if isVar(call.Call.Args[0]) && isFinished(call.Call.Args[1]) {
+						later = triOf(f.Pol)
+					}
+				}
+			}
+		}
+		if infeasible {
+			continue
+		}
+		pred := p.Blocks[len(p.Blocks)-2]
+		var e ssa.Value
+		for j, pb := range header.Preds {
+			if pb == pred {
+				e = resolve(p, phi.Edges[j])
+			}
+		}
+		if e == nil {
+			continue
+		}
+		if isVar(e) {
+			if !(restarted == triFalse || noRecord || later == triFalse) {
+				bad("an iteration keeps the previous time although the container restarted, has a recorded termination and it is not shown to be earlier: " + shortFacts(p))
+			}
+			continue
+		}
+		nUpd++
+		switch {
+		case !isFinished(e):
+			bad("the time is replaced by something else than the container's last termination time: " + describeVal(e))
+		case restarted != triTrue:
+			bad("the termination record of a container is taken without the fact RestartCount != 0 (a record of a container that never restarted is not a restart): " + shortFacts(p))
+		case later != triTrue:
+			bad("the time is replaced without the container's termination being later than the time found so far: " + shortFacts(p))
+		}
+	}
+	if nUpd == 0 {
+		bad("no iteration path takes a container's termination time")
+	}
+	r.Check("C06.R15", construct, pos, shortFunc(fn),
+		"the returned time is replaced exactly by the FinishedAt of a container with RestartCount != 0 whose termination is later than the time found so far (the 'latest observed restart' of the restart-span trigger)", okAll, detail)
+}
+
+// ---------------------------------------------------------------------------------------------
+// R9 (addition): the verdict conditions do not outlive the canary episode
+
+// c06ActiveResets: a replica set that becomes the active one starts from a clean slate: for each
+// condition type that the canary evaluation writes from a Result flag (Canary-Failed from IsFailed,
+// Canary-Paused from IsPaused) the replica-set controller writes constant False under role ==
+// active, before the rolling-update strategy runs. Otherwise the persisted-condition readers see a
+// verdict of an episode that is over (a validated canary stays 'paused' / 'failed' for ever).
+func c06ActiveResets(c *c06Ctx) {
+	r := c.r
+	rec := r.Prog.Method(pkgERS, "Reconciler", "Reconcile")
+	entry := r.Prog.Func(pkgStrategy, "ManageDeployment")
+	active, okA := r.Prog.constStr(pkgStrategy, "ReplicaSetStatusActive")
+	if rec == nil || entry == nil || !okA {
+		r.Fatal("anchor (%s.Reconciler).Reconcile, %s.ManageDeployment or ReplicaSetStatusActive not found", pkgERS, pkgStrategy)
+		return
+	}
+	reach := r.Prog.reachableFuncs(rec)
+	sites := condWriteSites(reach)
+	calls := callSitesOf(entry, reach)
+	isRole := func(v ssa.Value) bool {
+		v = stripConv(v)
+		return allPathsEnd(v, "ReplicaSetStatus") || (isNamedType(v.Type(), pkgStrategy, "ReplicaSetStatus") && dependsOn(v, func(x ssa.Value) bool { return allPathsEnd(x, "ReplicaSetStatus") }))
+	}
+	for _, flag := range []string{"IsFailed", "IsPaused"} {
+		w := c06FlagConditionWrite(c.eval, flag)
+		if w == nil || w.typ == "" {
+			continue // reported elsewhere
+		}
+		ok, detail := len(calls) > 0, ""
+		if len(calls) == 0 {
+			detail = "no call of the rolling-update strategy under the replica-set Reconcile"
+		}
+		for _, ci := range calls {
+			found := false
+			for _, s := range sites {
+				if !s.typOK || s.typ != w.typ || s.fn() != ci.Parent() {
+					continue
+				}
+				if st, _ := constString(s.status()); st != "False" {
+					continue
+				}
+				ob := s.outer.Block()
+				before := ob == ci.Block() && instrIndex(s.outer) < instrIndex(ci) || ob != ci.Block() && ob.Dominates(ci.Block())
+				underRole := c06FactsOf(s.fn()).AtExpanded(ob).any(true, func(v ssa.Value, _ string) bool {
+					return isEqCompare(v, isRole, isConstStringVal(active))
+				})
+				if before && underRole {
+					found = true
+				}
+			}
+			if !found {
+				ok = false
+				detail = "no write " + w.typ + "=False under role == \"" + active + "\" before the rolling-update strategy is run at " + r.Prog.Pos(ci.Pos())
+			}
+		}
+		r.Check("C06.R9", "active role resets "+w.typ, r.Prog.Pos(entry.Pos()), "-",
+			"a replica set that becomes active has the condition written from "+flag+" reset to False (the verdict of a finished canary episode is not read again)", ok, detail)
 	}
 }
